@@ -441,18 +441,18 @@ type c15World struct {
 	optSides   string               // inner DHTs created with EnableOptimisticProvide: "both" | "wan" | "lan"
 	estReady   map[string]bool      // side -> that inner DHT reports a network-size estimate
 	left       map[string][]peer.ID // side -> peers that left (removed from that side's table by the harness)
-	u     *simnet.Universe
-	pal   *c15Palette
-	host  *simhost.Host
-	d     *dual.DHT
-	snd   map[string]*simnet.Sender
-	ds    map[string]*simds.DS // one datastore per inner DHT
-	k     map[string]int
-	peers map[peer.ID]*c15Peer
-	order []*c15Peer // canonical order
-	t     *c15Peer
-	ops   []*c15Op
-	cl    opSet
+	u          *simnet.Universe
+	pal        *c15Palette
+	host       *simhost.Host
+	d          *dual.DHT
+	snd        map[string]*simnet.Sender
+	ds         map[string]*simds.DS // one datastore per inner DHT
+	k          map[string]int
+	peers      map[peer.ID]*c15Peer
+	order      []*c15Peer // canonical order
+	t          *c15Peer
+	ops        []*c15Op
+	cl         opSet
 
 	selfAddrs []ma.Multiaddr
 	psStart   map[peer.ID]map[string]bool
